@@ -1,9 +1,105 @@
 (* Properties_C14.v -- the property theorems, nothing else. *)
-From Coq Require Import List NArith Bool.
+From Coq Require Import List NArith Bool String.
 Import ListNotations.
-From Heph Require Import Diag.Regex Diag.Analyze Diag.Proofs.
+From Heph Require Import Diag.Regex Diag.Analyze Diag.Grammar Generated.Regexes Diag.Proofs Diag.AttrKotlin Diag.AttrJava.
 
 Theorem crash_pattern_classifies_as_crash :
   forall c fl out mt, search (crash_re c) out = Some mt -> analyze c fl out = Crash.
 Proof. exact analyze_crash_lem. Qed.
 Print Assumptions crash_pattern_classifies_as_crash.
+
+Theorem analyze_crash_iff :
+  forall c fl out,
+    analyze c fl out = Crash <->
+    (search (crash_re c) out <> None \/
+     (exists so, so_re c = Some so /\ search so out <> None /\
+                 findall (err_re c) (fold_left (fun acc p => sub_empty p acc) fl out) = [])).
+Proof. exact analyze_crash_iff_lem. Qed.
+Print Assumptions analyze_crash_iff.
+
+Theorem analyze_diag_is_findall :
+  forall c fl out f ms,
+    analyze c fl out = Diag f ms ->
+    let filtered := fold_left (fun acc p => sub_empty p acc) fl out in
+    ms = map (groups_of (ngroups c) filtered) (findall (err_re c) filtered) /\
+    f = fold_left (fun f mt => failed_add f (group filtered mt 1) (group filtered mt 2))
+                  (findall (err_re c) filtered) [].
+Proof. exact analyze_diag_is_findall_lem. Qed.
+Print Assumptions analyze_diag_is_findall.
+
+Theorem failed_add_groups :
+  forall es,
+    let f := group_by_file es in
+    keys_distinct (map fst f) = true /\
+    (forall file, In file (map fst es) <-> exists k, In k (map fst f) /\ chs_eqb k file = true) /\
+    List.length (flat_map snd f) = List.length es.
+Proof. exact failed_add_groups_lem. Qed.
+Print Assumptions failed_add_groups.
+
+Theorem failed_add_groups_content :
+  forall es k ms, In (k, ms) (group_by_file es) -> ms = msgs_for k es.
+Proof. exact group_by_file_content. Qed.
+Print Assumptions failed_add_groups_content.
+
+Theorem attribution_kotlin :
+  forall ls,
+    forallb wf_line ls = true ->
+    search crash_kotlin (render_k ls) = None ->
+    analyze comp_kotlin [] (render_k ls) =
+    Diag (group_by_file (kerrs ls)) (map (fun e => [fst e; snd e]) (kerrs ls)).
+Proof. exact attribution_kotlin_lem. Qed.
+Print Assumptions attribution_kotlin.
+
+Theorem warnings_add_no_file_kotlin :
+  forall ls,
+    forallb wf_line ls = true ->
+    search crash_kotlin (render_k ls) = None ->
+    exists f ms,
+      analyze comp_kotlin [] (render_k ls) = Diag f ms /\
+      (forall k, In k (map fst f) ->
+                 exists stem ln col msg, In (LErr stem ln col msg) ls /\ kpath stem = k) /\
+      ((forall l, In l ls -> exists t, l = LOther t) -> f = [] /\ ms = []).
+Proof. exact warnings_add_no_file_kotlin_lem. Qed.
+Print Assumptions warnings_add_no_file_kotlin.
+
+Theorem attribution_java :
+  forall ls,
+    forallb wf_line ls = true ->
+    search crash_java (render_j ls) = None ->
+    exists ms, analyze comp_java [] (render_j ls) = Diag (group_by_file (jerrs ls)) ms /\
+               List.length ms = List.length (jerrs ls).
+Proof. exact attribution_java_lem. Qed.
+Print Assumptions attribution_java.
+
+Theorem attribution_java_exact :
+  forall ls,
+    forallb wf_line ls = true ->
+    search crash_java (render_j ls) = None ->
+    analyze comp_java [] (render_j ls) =
+    Diag (group_by_file (jerrs ls)) (map (fun e => [fst e; snd e; []]) (jerrs ls)).
+Proof. exact attribution_java_exact_lem. Qed.
+Print Assumptions attribution_java_exact.
+
+Theorem warnings_add_no_file_java :
+  forall ls,
+    forallb wf_line ls = true ->
+    search crash_java (render_j ls) = None ->
+    exists f ms,
+      analyze comp_java [] (render_j ls) = Diag f ms /\
+      (forall k, In k (map fst f) ->
+                 exists stem ln col msg, In (LErr stem ln col msg) ls /\ jpath stem = k) /\
+      ((forall l, In l ls -> exists t, l = LOther t) -> f = [] /\ ms = []).
+Proof. exact warnings_add_no_file_java_lem. Qed.
+Print Assumptions warnings_add_no_file_java.
+
+Theorem attribution_kotlin_nonvacuous :
+  forallb wf_line k_example = true /\
+  search crash_kotlin (render_k k_example) = None /\
+  analyze comp_kotlin [] (render_k k_example) =
+  Diag [ (str "src/pkg/Main.kt", [str "type mismatch: inferred type is String but Int was expected"; str ""]);
+         (str "src/Util_k.kt", [str "unresolved reference: bar"]) ]
+       [ [str "src/pkg/Main.kt"; str "type mismatch: inferred type is String but Int was expected"];
+         [str "src/Util_k.kt"; str "unresolved reference: bar"];
+         [str "src/pkg/Main.kt"; str ""] ].
+Proof. exact k_example_ok. Qed.
+Print Assumptions attribution_kotlin_nonvacuous.
